@@ -118,7 +118,7 @@ func (e *Enc) resolveName(name string, b *ssa.BasicBlock, idx int, st *State) (e
 			switch x := ins.(type) {
 			case *ssa.DebugRef:
 				if id := x.Object(); id != nil && id.Name() == name {
-					if _, isVar := id.(*types.Var); isVar {
+					if v, isVar := id.(*types.Var); isVar && !v.IsField() {
 						cands = append(cands, nameCand{x.X, x.IsAddr, bb, i})
 					}
 				}
@@ -566,6 +566,18 @@ func (e *Enc) loadSpec(ctx *specCtx, p *Val, T types.Type) *Val {
 }
 
 // evalAddrOf: &s[i], &p.f, &x (for addressable variables)
+// ghostOwnerKey: ghost fields of an object are keyed by its type; every interface
+// value shares one key (the static interface type is just a view of the object).
+func ghostOwnerKey(T types.Type) string {
+	if T == nil {
+		return "?"
+	}
+	if _, ok := T.Underlying().(*types.Interface); ok {
+		return "iface"
+	}
+	return typeKey(T)
+}
+
 func (e *Enc) evalAddrOf(x SExpr, ctx *specCtx) *Val {
 	switch x := x.(type) {
 	case SIndex:
@@ -639,7 +651,7 @@ func (e *Enc) evalSel(x SSel, ctx *specCtx) *Val {
 		if base.Box != nil {
 			base = base.Box
 		}
-		hk := e.hkeyNamed(types.Typ[types.UnsafePointer], "/"+x.Name+":"+typeKey(base.T), "Int")
+		hk := e.hkeyNamed(types.Typ[types.UnsafePointer], "/"+x.Name+":"+ghostOwnerKey(base.T), "Int")
 		obj := base.L[0]
 		idx := "0"
 		if len(base.L) >= 2 {
@@ -975,6 +987,46 @@ func (e *Enc) evalCallSpec(x SCall, ctx *specCtx) *Val {
 		return mathBool(fmt.Sprintf("(= (itag %s) %d)", v.L[0], e.tagOf(T)))
 	case "int":
 		return e.evalSpec(x.Args[0], ctx)
+	case "binsize":
+		// bytes encoding/binary writes for a value passed as `any`
+		v := e.evalSpec(x.Args[0], ctx)
+		if v.Box != nil && v.Box.T != nil {
+			switch u := v.Box.T.Underlying().(type) {
+			case *types.Basic:
+				if u.Info()&types.IsInteger != 0 {
+					return mathInt(fmt.Sprint(intBits(v.Box.T) / 8))
+				}
+				if u.Info()&types.IsBoolean != 0 {
+					return mathInt("1")
+				}
+				if u.Kind() == types.Float32 {
+					return mathInt("4")
+				}
+				if u.Kind() == types.Float64 {
+					return mathInt("8")
+				}
+			case *types.Slice:
+				if b, ok := u.Elem().Underlying().(*types.Basic); ok {
+					sz := 0
+					switch {
+					case b.Info()&types.IsInteger != 0:
+						sz = intBits(u.Elem()) / 8
+					case b.Info()&types.IsBoolean != 0:
+						sz = 1
+					case b.Kind() == types.Float32:
+						sz = 4
+					case b.Kind() == types.Float64:
+						sz = 8
+					}
+					if sz > 0 {
+						return mathInt(fmt.Sprintf("(* %d %s)", sz, v.Box.L[slLen]))
+					}
+				}
+			}
+		}
+		e.declareFun("binsize_u", []string{"Int"}, "Int")
+		t := "(binsize_u " + v.L[0] + ")"
+		return mathInt(t)
 	}
 	// spec function?
 	if sf, ok := e.DB.Specs[x.Fn]; ok {
@@ -1398,7 +1450,7 @@ func (e *Enc) evalDesignator(x SExpr, ctx *specCtx) *designator {
 			if base.Box != nil {
 				base = base.Box
 			}
-			hk := e.hkeyNamed(types.Typ[types.UnsafePointer], "/"+x.Name+":"+typeKey(base.T), "Int")
+			hk := e.hkeyNamed(types.Typ[types.UnsafePointer], "/"+x.Name+":"+ghostOwnerKey(base.T), "Int")
 			idx := "0"
 			if len(base.L) >= 2 {
 				idx = base.L[1]
